@@ -16,6 +16,7 @@ mod props_c07;
 mod props_c15;
 mod props_conc;
 mod rng;
+mod rope_prog;
 mod runner;
 mod sched;
 mod spec;
@@ -33,7 +34,9 @@ fn arg_val(args: &[String], name: &str) -> Option<String> {
 fn property(id: &str) -> Box<dyn Property> {
   match id {
     "C18" => Box::new(props_conc::c18()),
-    "C19" => Box::new(props_conc::c19()),
+    "C19" => Box::new(props_conc::C19Prop {
+      conc: props_conc::c19(),
+    }),
     "C14" => Box::new(props_conc::c14()),
     "C10" => Box::new(props_conc::c10()),
     "C05" => Box::new(props_c05::C05),
@@ -157,6 +160,73 @@ fn main() {
         println!("  violation kind={} detail={}", v.kind, v.detail);
       }
       std::process::exit(if rep.violations.is_empty() { 0 } else { 1 });
+    }
+    "miri-batch" => {
+      // miri-batch <seed> <from> <to> <step>: C19 scenarios without baselines
+      let n = |i: usize| -> u64 { args.get(i).and_then(|s| s.parse().ok()).unwrap_or(0) };
+      let (seed, from, to, step) = (n(2), n(3), n(4), n(5).max(1));
+      let mut p = props_conc::c19();
+      p.judge.skip_baselines = true;
+      p.judge.fatal_events = false;
+      let mut bad = 0;
+      let mut i = from;
+      while i < to {
+        println!("start index={}", i);
+        if i % 4 == 3 {
+          // the native tier's rope-program population, same (seed, index)
+          let mut rng = rng::Rng::new(rng::run_seed(seed, rng::str_hash("C19-rope"), i));
+          let rc = rope_prog::gen_rope_case(&mut rng);
+          let (vs, _) = rope_prog::check_rope_case(&rc);
+          println!("done index={} family=\"rope program\" decisions=0 switches=0 lends=0 violations={}", i, vs.len());
+          for v in &vs {
+            println!("VIOLATION-CANDIDATE index={} kind={} detail={}", i, v.kind, v.detail);
+            bad += 1;
+          }
+          i += step;
+          continue;
+        }
+        let case = p.generate(seed, i);
+        let res = conc::check_conc(&case.scenario, &case.knobs, None, &p.judge);
+        println!(
+          "done index={} family={:?} decisions={} switches={} lends={} violations={}",
+          i,
+          case.scenario.family,
+          res.outcome.stats.decisions,
+          res.outcome.stats.switches,
+          res.outcome.stats.events.get("cache.lend").copied().unwrap_or(0),
+          res.violations.len()
+        );
+        for v in &res.violations {
+          println!("VIOLATION-CANDIDATE index={} kind={} detail={}", i, v.kind, v.detail);
+          bad += 1;
+        }
+        i += step;
+      }
+      std::process::exit(if bad > 0 { 1 } else { 0 });
+    }
+    "miri-replay" => {
+      // miri-replay <file>: re-execute a C19/C18 replay file (meant for `cargo miri run`)
+      let path = args.get(2).cloned().unwrap_or_default();
+      let text = std::fs::read_to_string(&path).expect("read replay file");
+      let file: serde_json::Value = serde_json::from_str(&text).expect("parse replay file");
+      let case: props_conc::ConcCase = serde_json::from_value(file["case"].clone()).expect("case");
+      let mut p = props_conc::c19();
+      p.judge.skip_baselines = true;
+      p.judge.fatal_events = false;
+      let res = conc::check_conc(&case.scenario, &case.knobs, case.schedule.clone(), &p.judge);
+      println!("miri-replay decisions={} violations={}", res.outcome.stats.decisions, res.violations.len());
+      for v in &res.violations {
+        println!("VIOLATION-CANDIDATE kind={} detail={}", v.kind, v.detail);
+      }
+      std::process::exit(if res.violations.is_empty() { 0 } else { 1 });
+    }
+    "case" => {
+      // case <PROP> <seed> <index>: print the explicit case of a run
+      let id = args.get(2).cloned().unwrap_or_default();
+      let p = property(&id);
+      let seed: u64 = args.get(3).and_then(|s| s.parse().ok()).unwrap_or(1);
+      let index: u64 = args.get(4).and_then(|s| s.parse().ok()).unwrap_or(0);
+      println!("{}", serde_json::to_string_pretty(&p.case_of(seed, index)).unwrap());
     }
     other => {
       eprintln!("HARNESS-ERROR: unknown command {}", other);
